@@ -253,7 +253,10 @@ void worker(int id) {
                 punching[o.f] = 1;
                 { phx::Where w(rec, "punch-wait-idle", i); while (inflight[o.f]) photon::thread_usleep(20); }
                 int r;
-                { phx::Where w(rec, "punch", i); r = static_cast<ICachedFile*>(h[o.f])->evict(o.off, o.len ? o.len : 1); }
+                // either a byte range is punched out, or (every third time) everything from an offset to the end is dropped
+                bool tail = (o.off + o.len + i) % 3 == 0;
+                { phx::Where w(rec, "punch", i); r = static_cast<ICachedFile*>(h[o.f])->evict(tail ? (o.off / 4096) * 4096 : o.off, tail ? (size_t)-1 : (o.len ? o.len : 1)); }
+                if (tail) sim::probe("tail_dropped_from_offset");
                 punching[o.f] = 0;
                 sim::note("op %zu th%d: evict range (%s, offset %llu, length %llu) = %d", i, id, sf.path.c_str(), (unsigned long long)o.off, (unsigned long long)o.len, r);
                 sim::probe("range_punch");
